@@ -302,6 +302,13 @@ def run_shard(shard):
         for kw in HUGE:
             with worker.guarded(acc, "construct", {"kind": "huge", "kw": kw}):
                 check_huge(acc, pendulum, kw)
+        # AbsoluteDurations of a day and more given as a bare number of microseconds / seconds (what arithmetic on a Time.diff()
+        # result constructs), either sign
+        for kw in ({"microseconds": 86400 * US}, {"microseconds": 3 * 86400 * US + 7}, {"microseconds": -(25 * 3600 * US + 7)},
+                   {"microseconds": 8 * 86400 * US - 1}, {"microseconds": -(7 * 86400 * US)}, {"seconds": 90000}, {"seconds": -700000, "microseconds": -5},
+                   {"microseconds": 86399999999}, {"microseconds": -86400000001}, {"microseconds": (1 << 33) * US + 1}):
+            with worker.guarded(acc, "construct", {"kind": "tuple", "kw": kw, "abs": True}):
+                check_tuple(acc, pendulum, kw, absolute=True)
     for kw in it:
         n += 1
         if len({v < 0 for v in kw.values() if v}) == 2:
